@@ -339,3 +339,50 @@ func VerifCrossings(source graph.Source, layers map[string]int) (state VerifSnap
 	state = x.snap("crossings", 0, G)
 	return state, phase3.VerifCrossings(G)
 }
+
+// VerifPosition runs one positioning algorithm (phase 4) on a synthetic proper layering: the graph populated
+// from source, every node in the given layer with the given size, the listed nodes virtual, the nodes of a
+// layer ordered as in the node list. alg: "sink" | "valign" | "packright" | "ns" | "bk"; bk is the
+// Brandes-Koepf layout parameter.
+func VerifPosition(alg string, source graph.Source, layers map[string]int, sizes map[string][2]float64, virtual map[string]bool,
+	nodeSpacing, layerSpacing float64, bk int) (before, after VerifSnap) {
+	G := from(source)
+	size := 0
+	for _, n := range G.Nodes {
+		n.Layer = layers[n.ID]
+		n.IsVirtual = virtual[n.ID]
+		n.W, n.H = sizes[n.ID][0], sizes[n.ID][1]
+		size = max(size, n.Layer+1)
+	}
+	G.Layers = make([]*ig.Layer, size)
+	for i := range G.Layers {
+		G.Layers[i] = &ig.Layer{Index: i}
+	}
+	for _, n := range G.Nodes {
+		l := G.Layers[n.Layer]
+		n.LayerPos = len(l.Nodes)
+		l.Nodes = append(l.Nodes, n)
+	}
+	x := &verifIndex{nidx: map[*ig.Node]int{}, eidx: map[*ig.Edge]int{}}
+	before = x.snap("before", 0, G)
+	params := defaultOptions.params
+	params.NodeSpacing, params.LayerSpacing, params.BrandesKoepfLayout = nodeSpacing, layerSpacing, bk
+	var p processor.P
+	switch alg {
+	case "sink":
+		p = PositioningSinkColoring
+	case "valign":
+		p = PositioningVAlign
+	case "packright":
+		p = PositioningPackRight
+	case "ns":
+		p = PositioningNetworkSimplex
+	case "bk":
+		p = PositioningBrandesKoepf
+	default:
+		panic("VerifPosition: unknown algorithm " + alg)
+	}
+	p.Process(G, params)
+	after = x.snap("after", 0, G)
+	return before, after
+}
